@@ -9,6 +9,7 @@ import ErgoProofs.Lemmas.StorageThm
 import ErgoProofs.Lemmas.PropsAux
 import ErgoProofs.Lemmas.ChunkedRead
 import ErgoProofs.Lemmas.ProgramThm
+import ErgoProofs.Lemmas.CodecInst
 namespace Ergo
 open Proc
 
@@ -36,9 +37,9 @@ theorem C13_history_is_the_sequence_of_logs {log0 : List Event} {ws : List (List
   history_is_logs h
 
 /-- byte level: a reader that catches a writer killed inside its write sees everything from before plus whole lines only -/
-theorem C13_torn_tail_is_dropped {classify : Storage.Bytes → Storage.LineClass} {encode : Event → Storage.Bytes} {limit : Nat}
-    (hc : Storage.Codec classify encode) (f : Storage.Bytes) (es evs : List Event) (k : Nat)
-    (hr : Storage.readEvents classify limit f = .ok es) (hs : Storage.Short encode limit evs) :
+theorem C13_torn_tail_is_dropped {W : Event → Prop} {classify : Storage.Bytes → Storage.LineClass} {encode : Event → Storage.Bytes} {limit : Nat}
+    (hc : Storage.CodecOn W classify encode) (f : Storage.Bytes) (es evs : List Event) (k : Nat)
+    (hr : Storage.readEvents classify limit f = .ok es) (hs : Storage.Short W encode limit evs) :
     ∃ n, n ≤ evs.length ∧ Storage.readEvents classify limit (Storage.appendTorn classify encode f evs k) = .ok (es ++ evs.take n) :=
   Storage.appendTorn_reads hc f es evs k hr hs
 
@@ -62,9 +63,9 @@ theorem C13_chunked_reader_complete (vs : List (Storage.Bytes × Nat)) (h : Stor
   Storage.chunkedRead_complete vs h hne heof
 
 /-- … and while a batch is being appended it decodes to everything from before plus a whole number of the batch's events, never an error -/
-theorem C13_chunked_reader_of_append {classify : Storage.Bytes → Storage.LineClass} {encode : Event → Storage.Bytes} {limit : Nat}
-    (hc : Storage.Codec classify encode) (f : Storage.Bytes) (es evs : List Event)
-    (hr : Storage.readEvents classify limit f = .ok es) (hs : Storage.Short encode limit evs) (hnl : f.isEmpty ∨ Storage.endsWithNL f = true)
+theorem C13_chunked_reader_of_append {W : Event → Prop} {classify : Storage.Bytes → Storage.LineClass} {encode : Event → Storage.Bytes} {limit : Nat}
+    (hc : Storage.CodecOn W classify encode) (f : Storage.Bytes) (es evs : List Event)
+    (hr : Storage.readEvents classify limit f = .ok es) (hs : Storage.Short W encode limit evs) (hnl : f.isEmpty ∨ Storage.endsWithNL f = true)
     (vs : List (Storage.Bytes × Nat)) (hne : vs ≠ [])
     (hfirst : ∀ v ∈ vs, f <+: v.1 ∧ v.1 <+: Storage.appendFile classify encode f evs) (hgrow : Storage.GrowsOnly (vs.map (·.1)))
     (hall : f <+: Storage.chunkedRead vs []) :
@@ -84,5 +85,13 @@ theorem C13_in_place_truncation_refuted :
 theorem C13_reader_program_is_pure (p : List Program.Call) (h : Program.readerOK p = true) :
     Program.abstract p = [] ∧ (∀ c ∈ p, Program.mutatesLog c = false) :=
   Program.readerOK_pure p h
+
+
+/-- ergo's actual line format: a reader that catches a writer killed inside its write sees everything from before plus whole events only -/
+theorem C13_torn_tail_is_dropped_json (ets : Event → String) {limit : Nat} (f : Storage.Bytes) (es evs : List Event) (k : Nat)
+    (hr : Storage.readEvents Codec.classifyLine limit f = .ok es) (hs : Storage.Short Codec.Wf (Codec.encodeEvent ets) limit evs) :
+    ∃ n, n ≤ evs.length ∧
+      Storage.readEvents Codec.classifyLine limit (Storage.appendTorn Codec.classifyLine (Codec.encodeEvent ets) f evs k) = .ok (es ++ evs.take n) :=
+  Storage.appendTorn_reads (Codec.jsonCodec ets) f es evs k hr hs
 
 end Ergo
